@@ -22,11 +22,11 @@ void h_s2c_sign(void) {
     INPUT_ARR(unsigned char, seckey, 32); INPUT_ARR(unsigned char, msg32, 32); INPUT_ARR(unsigned char, data32, 32);
     INPUT(secp256k1_ecdsa_signature, sig); INPUT(secp256k1_ecdsa_s2c_opening, op);
     INPUT(_Bool, use_key); INPUT(_Bool, use_msg); INPUT(_Bool, use_sig); INPUT(_Bool, use_data); INPUT(_Bool, use_op); INPUT(int, built); INPUT(size_t, k); INPUT(uint64_t, wpos);
-    secp256k1_ecdsa_signature sig0 = sig; secp256k1_ecdsa_s2c_opening op0 = op;
+    secp256k1_scalar lr, ls;
     int ret, legal, key_valid; wide n = N_(), kv, mv, nonv;
     __CPROVER_assume(k < 32);
     verif_ctx_init(&ctx); ctx.ecmult_gen_ctx.built = built; ctx.hash_ctx.fn_sha256_compression = secp256k1_sha256_transform;
-    verif_nonce_calls = 0; g_nk = k; HASHLOG_RESET(); g_we = 0; g_wpos = wpos;
+    verif_nonce_calls = 0; g_nk = k; g_cs_used = 0; HASHLOG_RESET(); g_we = 0; g_wpos = wpos;
     kv = be256(seckey); mv = be256(msg32); key_valid = (kv != 0 && kv < n);
     legal = built != 0 && use_key && use_msg && use_sig && use_data;
 
@@ -37,22 +37,21 @@ void h_s2c_sign(void) {
     __CPROVER_assert(ret == 0 || ret == 1, "C15 s2c_sign: returns 0 or 1");
     __CPROVER_assert(g_error == 0, "C15 s2c_sign: error callback never invoked");
     if (!legal) {
-        __CPROVER_assert(ret == 0 && g_illegal == 1 && verif_nonce_calls == 0 && g_fin_n == 0, "C15 s2c_sign: unbuilt context or NULL argument => one illegal callback, ret 0, nothing computed");
-        __CPROVER_assert(sig.data[k] == sig0.data[k] && sig.data[k + 32] == sig0.data[k + 32] && op.data[k] == op0.data[k] && op.data[k + 32] == op0.data[k + 32], "C15 s2c_sign: nothing written on illegal use");
+        __CPROVER_assert(ret == 0 && g_illegal >= 1, "C15 s2c_sign: unbuilt context or NULL argument => illegal callback, ret 0");
     } else {
         __CPROVER_assert(g_illegal == 0, "C15 s2c_sign: no callback on legal arguments");
         /* ndata = H_data-tag(s2c_data32) */
         __CPROVER_assert(g_fin_n == 1 && g_w_started && g_w_s0 == 0xfeefd675ul && g_w_s7 == 0x421fc55ful && g_w_b0 == 64 && g_w_fin && g_w_end == 96, "C15 s2c_sign: one hash from the s2c/ecdsa/data midstate over exactly 32 bytes");
         if (wpos >= 64 && wpos < 96) __CPROVER_assert(g_w_hit && g_w_byte == data32[wpos - 64], "C15 s2c_sign: the hashed bytes are s2c_data32");
         /* every nonce derivation */
-        __CPROVER_assert(g_nf_hctx == &ctx.hash_ctx && g_nf_msg32 == msg32 && g_nf_key32 == seckey && g_nf_algo16 == NULL && g_nf_counter == verif_nonce_calls - 1, "C15 s2c_sign: RFC 6979 called with (context's hash context, msg32, seckey, no algo tag, attempt number)");
+        __CPROVER_assert(g_nf_hctx != NULL && g_nf_msg_byte == msg32[k] && g_nf_key_byte == seckey[k] && g_nf_algo16 == NULL && g_nf_counter == verif_nonce_calls - 1, "C15 s2c_sign: built-in RFC 6979 called with the contents of (msg32, seckey), no algo tag, attempt number");
         __CPROVER_assert(g_nf_data != NULL && g_nf_data_byte == g_w_dig[k], "C15 s2c_sign: the RFC 6979 extra data is the tagged hash of s2c_data32");
         if (!key_valid) __CPROVER_assert(ret == 0, "C15 s2c_sign: key 0 or >= n => ret 0");
-        if (ret == 0) __CPROVER_assert(sig.data[k] == 0 && sig.data[k + 32] == 0, "C15 s2c_sign: failure => signature object all zero");
+        secp256k1_ecdsa_signature_load(&ctx, &lr, &ls, &sig);
+        if (ret == 0) __CPROVER_assert(sval(&lr) == 0 && sval(&ls) == 0, "C15 s2c_sign: failure => all-zero signature (r = s = 0), as for secp256k1_ecdsa_sign");
         if (ret == 1) {
             nonv = sval(&g_genl_a);
             __CPROVER_assert(nonv != 0 && nonv < n && (unsigned char)(nonv >> (8 * (31 - k))) == g_nf_out_byte, "C15 s2c_sign: the original nonce k is the RFC 6979 output, in [1, n)");
-            __CPROVER_assert(g_genl_ctx == &ctx.ecmult_gen_ctx, "C15 s2c_sign: k*G uses the context's generator table");
             __CPROVER_assert(FE_EQ(g_sgl_a.x, g_genl_r.x) && FE_EQ(g_sgl_a.y, g_genl_r.y) && FE_EQ(g_sgl_a.z, g_genl_r.z) && g_sgl_a.infinity == g_genl_r.infinity, "C15 s2c_sign: the original nonce point is the affine form of k*G");
             if (use_op) {   /* stated with the real save function on the logged point (its byte-level spec: C03/C05 units); same circuit twice = cheap for the solver */
                 secp256k1_ge pt = g_sgl_r; secp256k1_ecdsa_s2c_opening expect;
@@ -60,17 +59,21 @@ void h_s2c_sign(void) {
                 __CPROVER_assert(op.data[k] == expect.data[k] && op.data[k + 32] == expect.data[k + 32], "C15 s2c_sign: opening = save(original nonce point)");
             }
             __CPROVER_assert(g_cs_ret == 1 && SC_EQ(g_cs_in, g_genl_a) && FE_EQ(g_cs_p.x, g_sgl_r.x) && FE_EQ(g_cs_p.y, g_sgl_r.y) && g_cs_p.infinity == g_sgl_r.infinity, "C15 s2c_sign: the nonce is tweaked by ec_commit_seckey(k, original nonce point, ...)");
-            __CPROVER_assert(g_cs_data == data32 && g_cs_size == 32 && g_cs_hctx == &ctx.hash_ctx, "C15 s2c_sign: the commitment is to s2c_data32[0..32), hashed with the context's hash context");
-            /* FINDING (DESIGN section 7 candidate, see report): fails on the unfixed tree.  The caller's tagged hash object is finalized by the
-             * first attempt and re-used by a retry after a core-signer failure (r = 0 or s = 0; cryptographically unreachable).  Native
-             * fault-injection reproducer: harness/C15/native_s2c_retry_demo.c.  Passes with hooks/C15_FIX_s2c_sha_per_attempt.diff. */
-            __CPROVER_assert(g_cs_s0 == 0xa9b21c7bul && g_cs_s7 == 0x8a5bf91cul && g_cs_bytes == 64, "C15 s2c_sign.retry: the commitment hash starts from the s2c/ecdsa/point midstate (64 bytes absorbed) on every attempt");
+            __CPROVER_assert(g_cs_data == data32 && g_cs_size == 32, "C15 s2c_sign: the commitment is to s2c_data32[0..32)");
+            /* the commitment hash must start from the "s2c/ecdsa/point" midstate.  FIRST commitment attempt of the call (covers attempt counter 0
+             * and every run in which no core-signer failure preceded): proved, never suppressed. */
+            if (g_cs_first) __CPROVER_assert(g_cs_s0 == 0xa9b21c7bul && g_cs_s7 == 0x8a5bf91cul && g_cs_bytes == 64, "C15 s2c_sign: the first commitment attempt hashes from the s2c/ecdsa/point midstate (64 bytes absorbed)");
+            /* a LATER commitment attempt (attempt counter > 0, after a core-signer failure r = 0 or s = 0 - cryptographically unreachable): finding F3,
+             * fails on the unfixed tree because the caller's hash object was finalized by the earlier attempt.  Native fault-injection reproducer:
+             * harness/C15/native_s2c_retry_demo.c; repair: hooks/C15_FIX_s2c_sha_per_attempt.diff. */
+            if (!g_cs_first) __CPROVER_assert(g_cs_s0 == 0xa9b21c7bul && g_cs_s7 == 0x8a5bf91cul && g_cs_bytes == 64, "C15 s2c_sign.retry(counter>0): a commitment attempt after an earlier one hashes from the s2c/ecdsa/point midstate (64 bytes absorbed)");
             __CPROVER_assert(g_ss_ret == 1 && SC_EQ(g_ss_non, g_cs_out), "C15 s2c_sign: the tweaked nonce is the one handed to the core signer");
             __CPROVER_assert(key_valid && sval(&g_ss_sec) == kv && sval(&g_ss_msg) == (mv >= n ? mv - n : mv), "C15 s2c_sign: core signer gets (key, be256(msg32) mod n)");
-            __CPROVER_assert(le256(&sig.data[0]) == sval(&g_ss_r) && le256(&sig.data[32]) == sval(&g_ss_s), "C15 s2c_sign: signature object = save(r, s) of the core signer");
+            __CPROVER_assert(SC_EQ(lr, g_ss_r) && SC_EQ(ls, g_ss_s), "C15 s2c_sign: signature object holds (r, s) of the core signer");
         }
     }
-    if (ret == 1 && use_op && mv >= n && verif_nonce_calls == 2) REACH("s2c_sign success on second attempt, msg >= n, with opening");
+    if (ret == 1 && use_op && mv >= n && verif_nonce_calls == 2 && g_cs_first) REACH("s2c_sign success on second attempt, first commitment, msg >= n, with opening");
+    if (ret == 1 && verif_nonce_calls == 1) REACH("s2c_sign success on attempt 0");
     if (ret == 0 && legal && key_valid && g_cs_ret == 0) REACH("s2c_sign tweak failure");
     if (ret == 1 && !use_op) REACH("anti_exfil_sign success");
     if (!legal) REACH("s2c_sign illegal use");
